@@ -105,8 +105,9 @@ func (s *receiveLog) missingSeqNumbers(skipLastN uint16, missingPacketSeqNums []
 	defer s.m.RUnlock()
 
 	until := s.end - skipLastN
-	if until-s.lastConsecutive >= rtpbuffer.Uint16SizeHalf {
-		// until < s.lastConsecutive (counting for rollover)
+	if until-s.lastConsecutive > s.size {
+		// until < s.lastConsecutive (counting for rollover): lastConsecutive is never
+		// more than size behind end, and with the largest size it can be exactly that
 		return nil
 	}
 
